@@ -27,7 +27,11 @@ enum Item {
         len: usize,
         content: u64,
     },
-    Leftovers,
+    /// reference only: fewer than three bytes remain; the property asks for exactly one error
+    /// item here and does not say which, so it matches any observed error
+    ShortTail,
+    /// observed only: an error other than InvalidTLV
+    OtherError,
     Invalid(u8, u16),
 }
 
@@ -50,7 +54,12 @@ impl PartialEq for Item {
                     content: c2,
                 },
             ) => k1 == k2 && l1 == l2 && c1 == c2 && (s1 == s2 || *s1 == UNKNOWN || *s2 == UNKNOWN),
-            (Item::Leftovers, Item::Leftovers) => true,
+            (Item::ShortTail, Item::OtherError)
+            | (Item::OtherError, Item::ShortTail)
+            | (Item::ShortTail, Item::Invalid(..))
+            | (Item::Invalid(..), Item::ShortTail)
+            | (Item::ShortTail, Item::ShortTail)
+            | (Item::OtherError, Item::OtherError) => true,
             (Item::Invalid(a, b), Item::Invalid(c, d)) => a == c && b == d,
             _ => false,
         }
@@ -58,15 +67,15 @@ impl PartialEq for Item {
 }
 
 /// The reference: read type, big-endian 16-bit length, that many bytes; fewer than
-/// three bytes left => one Leftovers error; value overruns => one InvalidTLV(type,
-/// declared); then stop. Shares no code with the crate.
+/// three bytes left => one error item (the property does not say which); value overruns =>
+/// one InvalidTLV(type, declared); then stop. Shares no code with the crate.
 fn reference(section: &[u8]) -> Vec<Item> {
     let mut out = Vec::new();
     let mut off = 0usize;
     while off < section.len() {
         let rem = section.len() - off;
         if rem < 3 {
-            out.push(Item::Leftovers);
+            out.push(Item::ShortTail);
             break;
         }
         let kind = section[off];
@@ -104,10 +113,8 @@ fn to_item(x: Result<v2::TypeLengthValue<'_>, E2>, base: (*const u8, usize)) -> 
                 content: fnv(&t.value),
             }
         }
-        Err(E2::Leftovers(_)) => Item::Leftovers,
         Err(E2::InvalidTLV(k, l)) => Item::Invalid(k, l),
-        // an error kind the property does not allow here
-        Err(_) => Item::Invalid(0xEE, 0xEEEE),
+        Err(_) => Item::OtherError,
     }
 }
 
@@ -156,7 +163,7 @@ impl<'s> Judge<'s> {
                         st.hit("probe:tlv_exact_fit");
                     }
                 }
-                Item::Leftovers => {
+                Item::ShortTail => {
                     let consumed: usize = want
                         .iter()
                         .map(|x| match x {
@@ -170,6 +177,7 @@ impl<'s> Judge<'s> {
                     }
                 }
                 Item::Invalid(..) => st.hit("probe:tear_in_value"),
+                Item::OtherError => {}
             }
         }
         if it.as_bytes() != section {
@@ -245,7 +253,7 @@ impl<'s> Judge<'s> {
             }
         }
         match want.last() {
-            Some(Item::Leftovers) | Some(Item::Invalid(..)) => st.hit("probe:next_after_error"),
+            Some(Item::ShortTail) | Some(Item::Invalid(..)) => st.hit("probe:next_after_error"),
             _ => st.hit("probe:next_after_end"),
         }
         // the copies must continue exactly where they were taken, whichever part of the
@@ -730,7 +738,7 @@ impl Check for C11 {
     fn assumptions(&self) -> Vec<String> {
         vec![
             "the expected section is computed from the wire (payload after the family's address block, up to the declared length), not taken from tlv_bytes()".into(),
-            "for Leftovers only the variant is compared: the property does not say what it carries".into(),
+            "when fewer than three bytes remain any single error item is accepted: the property does not say which error that is".into(),
         ]
     }
 }
@@ -741,7 +749,7 @@ fn section_shape(section: &[u8]) -> String {
     for it in r.iter().take(6) {
         match it {
             Item::Ok { len, .. } => s.push_str(&format!("ok{},", len)),
-            Item::Leftovers => s.push_str("leftovers"),
+            Item::ShortTail | Item::OtherError => s.push_str("short_tail"),
             Item::Invalid(_, l) => s.push_str(&format!("overrun{}", l)),
         }
     }
